@@ -124,6 +124,7 @@ pub fn wild_layout(n: usize, nx: usize, rng: &mut Rng, sparse: bool, max_files: 
                     name: name.into(),
                     bytes: Bytes(rng.bytes_range(0, 100)),
                     is_dir: false,
+                    symlink_to: None,
                 });
             }
         }
@@ -145,6 +146,27 @@ pub fn wild_layout(n: usize, nx: usize, rng: &mut Rng, sparse: bool, max_files: 
                     name,
                     bytes: Bytes(rng.bytes_range(0, 3000)),
                     is_dir: false,
+                    symlink_to: None,
+                });
+            }
+        }
+        // symbolic links with a blk file name that cannot be followed (dangling, self-referential) or lead to a
+        // directory: named by no record, to be ignored like any other stray entry
+        for target in ["no-such-target", "", ".", "index"] {
+            if !rng.chance(1, 3) {
+                continue;
+            }
+            let mut k = 8100 + rng.below(500);
+            while files.iter().any(|f| f.number == k) {
+                k += 1;
+            }
+            let name = format!("blk{:05}.dat", k);
+            if !extra_files.iter().any(|e: &ExtraFile| e.name == name) {
+                extra_files.push(ExtraFile {
+                    name: name.clone(),
+                    bytes: Bytes(vec![]),
+                    is_dir: false,
+                    symlink_to: Some(if target.is_empty() { name } else { target.to_string() }),
                 });
             }
         }
@@ -160,6 +182,7 @@ pub fn wild_layout(n: usize, nx: usize, rng: &mut Rng, sparse: bool, max_files: 
                     name,
                     bytes: Bytes(rng.bytes_range(0, 200)),
                     is_dir,
+                    symlink_to: None,
                 });
             }
         }
@@ -168,6 +191,7 @@ pub fn wild_layout(n: usize, nx: usize, rng: &mut Rng, sparse: bool, max_files: 
         files,
         xor_key: None,
         magic_mode: if rng.chance(1, 3) { rng.range(1, 3) as u8 } else { 0 },
+        xor_symlink: false,
         extra_files,
     }
 }
@@ -338,9 +362,47 @@ impl Prop for C11 {
         }
     }
     fn required_probes(&self, _tier: Tier) -> Vec<&'static str> {
-        vec!["xor_layout", "sparse_over_4gib", "block_over_32k", "key_len_not_8", "chunk_below_period", "zero_key", "key_len_over_256", "key_zero_in_first_8_bytes_only"]
+        vec!["xor_layout", "sparse_over_4gib", "block_over_32k", "key_len_not_8", "chunk_below_period", "zero_key", "key_len_over_256", "key_zero_in_first_8_bytes_only", "xor_dat_is_a_symlink", "over_512_files_open_at_once"]
     }
     fn explore(&self, item: u64, rng: &mut Rng, tier: Tier, h: &mut Harness) -> Result<(), String> {
+        if item % 50 == 7 {
+            // hundreds of files that all stay open: file j holds block j and block j+nf, so none can be
+            // closed before the second pass reaches it (descriptor-saving schemes must keep the key)
+            let nf = *rng.pick(&[300usize, 520, 600, 700]);
+            let coin = COINS[(item / 50 % 8) as usize];
+            let mut scn = new_scenario("C11", "many-open", coin);
+            scn.chain = marker_chain(0, 2 * nf, rng);
+            let files: Vec<BlkFileDesc> = (0..nf)
+                .map(|j| BlkFileDesc {
+                    number: j as u64,
+                    width: 5,
+                    segs: vec![Seg::Active { i: j }, Seg::Active { i: j + nf }],
+                    symlink: false,
+                })
+                .collect();
+            let plain = Layout {
+                files,
+                xor_key: None,
+                magic_mode: 0,
+                xor_symlink: false,
+                extra_files: vec![],
+            };
+            let mut obf = plain.clone();
+            obf.xor_key = Some(Bytes(rng.bytes(8)));
+            scn.layouts = vec![plain, obf];
+            scn.index = index_opts(rng);
+            for li in 0..2 {
+                let mut r = RunSpec::new("csvdump");
+                r.layout = li;
+                r.threads = 2;
+                scn.runs.push(r);
+            }
+            if nf > 512 {
+                h.stats.probe("over_512_files_open_at_once");
+            }
+            h.check(&mut scn)?;
+            return Ok(());
+        }
         let mut scn = world("C11", "xor-twin", item, rng, tier);
         let n = scn.chain.len();
         let nx = scn.extras.len();
@@ -385,6 +447,10 @@ impl Prop for C11 {
         }
         let mut obf = plain.clone();
         obf.xor_key = Some(Bytes(key));
+        obf.xor_symlink = rng.chance(1, 6);
+        if obf.xor_symlink {
+            h.stats.probe("xor_dat_is_a_symlink");
+        }
         scn.layouts = vec![plain, obf];
         let cb = *rng.pick(&["csvdump", "csvdump", "unspentcsvdump", "balances", "simplestats", "opreturn"]);
         let p = kl.max(1);
